@@ -71,7 +71,7 @@ class C19(Prop):
     pid = "C19"
     prop_file = "Props/C19.v"
     module = "Props.C19"
-    gen_deps = ["Table", "Locking", "StreamFn", "AutoFn", "GlueFn"]
+    gen_deps = ["Table", "Locking", "StreamFn", "AutoFn", "GlueFn", "MacrosFn", "FmtFn"]
     harness = ("h-core", "hcore")
     nontrivial_rule = ("cases: (1) every Write method x {AutoStream::never, AutoStream::always_ansi, StripStream} x exhaustively all lists of up to 2 (3 for "
                        "write_fmt / write_vectored; thorough: 3 / 4) fragments over a 13-element representative set (empty fragment, text, escape sequences cut at every "
